@@ -287,7 +287,7 @@ SetOf(x) == [files |-> FilesOf(x), start |-> FilesOf(x)[1].name]
 
 \* the struct table the schema prescribes
 TargetJ(t) == IF t.k = "struct" THEN [k |-> "struct", ns |-> t.ns, xml |-> NameRec(t.n).xml, pascal |-> NameRec(t.n).pascal] ELSE t
-FieldJ(e) == [xml |-> NameRec(e.xml).xml, snake |-> NameRec(e.xml).snake, w |-> e.w, attr |-> e.attr, target |-> TargetJ(e.target), ns |-> e.ns]
+FieldJ(e) == [xml |-> NameRec(e.xml).xml, snake |-> NameRec(e.xml).snake, w |-> e.w, attr |-> e.attr, target |-> TargetJ(e.target), ns |-> e.ns, xsd |-> e.xsd]
 RECURSIVE SetToSeq(_)
 SetToSeq(X) == IF X = {} THEN <<>> ELSE LET x == CHOOSE y \in X : TRUE IN <<x>> \o SetToSeq(X \ {x})
 StructJ(S, s) == [ns |-> s.ns, xml |-> NameRec(s.n).xml, pascal |-> NameRec(s.n).pascal, kind |-> s.k,
@@ -321,10 +321,12 @@ OpsOf(x) ==
 \* the documents the schema prescribes for the values of each root (instance documents for C04 are rendered from them)
 Infosets(S) == LET rs == SetToSeq({r \in StructComps(S) : TRUE})
                    ps == <<"min", "max", "mix">>
+                   ws == SetToSeq({r \in StructComps(S) : HasWide(S, r, 4)})
                IN [i \in 1..(Len(rs) * 3) |->
                      LET r == rs[((i - 1) \div 3) + 1]
                          p == ps[((i - 1) % 3) + 1]
                      IN [ns |-> r.ns, n |-> NameRec(r.n).xml, kind |-> r.k, plan |-> p, tree |-> ExpInfoset(S, r, p)]]
+                  \o [i \in 1..Len(ws) |-> [ns |-> ws[i].ns, n |-> NameRec(ws[i].n).xml, kind |-> ws[i].k, plan |-> "wide", tree |-> ExpInfoset(S, ws[i], "wide")]]
 Envelopes(x) == LET S == SetOf(x)
                     os == OpsOf(x)
                 IN [i \in 1..Len(os) |-> [op |-> os[i].n,
